@@ -70,6 +70,8 @@ def check(ctx):
     ctx.guard("C11.a NORMALISE-DOMINATES-USE", "scorers", lambda: check_scorers(ctx))
     ctx.guard("C11.b CARRY-INDEX", "converters", lambda: check_converters(ctx))
     ctx.guard("C11.b CARRY-INDEX", "check_data", lambda: check_normaliser_keeps_index(ctx))
+    ctx.guard("C11.b CARRY-INDEX", "check_series", lambda: check_series_keeps_names(ctx))
+    ctx.guard("C11.b CARRY-INDEX", "drivers-positional", lambda: check_drivers_positional(ctx))
     # the index half of this property: index labels are never used as positions (rule C05.a)
     from . import c05
 
@@ -239,6 +241,69 @@ def _carry_index(ctx, cls, entry, dense):
         ctx.check(ok, "C11.b CARRY-INDEX", f"{cls.name}.{entry}|{e.func.name}", e.loc(), "a dense output (one row per sample) carries the index of the current argument", found=valkey(ia) if ia is not None else "no index= (fresh RangeIndex)", expected=repr(want))
 
 
+def check_drivers_positional(ctx):
+    """The detectors wrap what their drivers return as `pd.Series(values, index=X.index)` / hand it to the formatter: that
+    re-labels POSITIONAL values (ndarrays, lists).  A driver that returns a labelled pandas object (a Series indexed
+    0..n-1) is re-ALIGNED by label instead: for any index other than the default one the values move or become NaN.
+    Every value returned by every driver is an array / a list, on every path."""
+    rule = "C11.b CARRY-INDEX"
+    from .c03 import _pen_summary
+    from .c12 import DETECTORS, generic_driver_run
+
+    seen = set()
+    for pkg, name, meth in DETECTORS:
+        cls = ctx.P.public_class(pkg, name)
+        m = ctx.P.lookup_method(cls, meth)
+        cands = find_driver_call(ctx, m)
+        if len(cands) != 1 or cands[0][1].qualname in seen:
+            continue
+        drv = cands[0][1]
+        seen.add(drv.qualname)
+        summ = {}
+        for f in ctx.P.functions.values():
+            if f.cls is None and len(f.params) == 3 and "alpha" in f.params[1] and "beta" in f.params[2]:
+                summ[f.qualname] = _pen_summary
+        try:
+            ex, paths = generic_driver_run(ctx, drv, summ, max_paths=4000)
+        except Undecided as u:
+            ctx.undecided(rule, f"{drv.name}|returns-positional", drv.loc(), str(u))
+            continue
+        bad = []
+        n_ret = 0
+        for p in paths:
+            if p.outcome != "return":
+                continue
+            n_ret += 1
+            items = p.value.items if isinstance(p.value, TupleV) else [p.value]
+            for k, v in enumerate(items):
+                labelled = (isinstance(v, Num) and v.pytype in ("series", "frame")) or (isinstance(v, OpaqueV) and (v.meta.get("kind") in ("series", "frame") or v.key.startswith("pd.") or ".reindex(" in v.key or ".to_frame(" in v.key))
+                if labelled:
+                    bad.append((k, v))
+        ctx.check(not bad, rule, f"{drv.name}|returns-positional", drv.loc(), "the driver returns arrays / lists (positional values), never a labelled pandas object that the detector's pd.Series(..., index=X.index) would re-align by label", found=[f"output #{k}: {valkey(v)[:60]}" for k, v in bad][:3] or f"{n_ret} returning paths", expected="np.ndarray / list")
+
+
+def check_series_keeps_names(ctx):
+    """sktime's check_series(X) - without allow_index_names=True - resets the names of X.index IN PLACE: the caller's
+    object loses its index name, and so does every dense output built from that index.  Every call site in the package
+    passes allow_index_names=True (sibling agreement, confirmed by reading: fit / predict / transform_scores / update of
+    BaseDetector and fit of BaseIntervalScorer); a site without it is the deviant."""
+    rule = "C11.b CARRY-INDEX"
+    n = 0
+    for f in ctx.P.functions.values():
+        for node in ast.walk(f.node):
+            if not isinstance(node, ast.Call):
+                continue
+            r = ctx.P.resolve_expr(f.module, node.func)
+            if not (isinstance(r, tuple) and r[0] == "external" and r[1].endswith("check_series")):
+                continue
+            n += 1
+            kw = next((k.value for k in node.keywords if k.arg == "allow_index_names"), None)
+            ok = isinstance(kw, ast.Constant) and kw.value is True
+            ctx.check(ok, rule, f"check_series|{f.qualname.split('.', 1)[-1]}@{norm_src(node)[:40]}", f.loc(node), "check_series is called with allow_index_names=True: the index names of the caller's data (and of every dense output) survive", found=norm_src(node), expected="check_series(..., allow_index_names=True)")
+    if n == 0:
+        ctx.holds(rule, "check_series", "", "sktime's check_series is not used by the package", nontrivial=False)
+
+
 def check_normaliser_keeps_index(ctx):
     """check_data must hand a DataFrame argument on unchanged (same object: its index and
     columns are what dense outputs carry); arrays get a fresh frame, Series become frames"""
@@ -364,9 +429,10 @@ def check_as_2d(ctx):
             nd = None
             facts = {}
             for c, v in p.facts:
-                if c.t[0] == "cmp" and any(a.kind == "app" and a.args[0] == "ndim" for a in atoms_of(c.t[2]).values()):
+                # tests of the rank of the operand AS GIVEN (not of something derived from it: squeezed, reshaped)
+                if c.t[0] == "cmp" and any(a.kind == "app" and a.args[0] == "ndim" and nf_equal(lift(a.args[1]), sym("x")) for a in atoms_of(c.t[2]).values()):
                     lin = c.t[2]
-                    a = [x_ for x_ in atoms_of(lin).values() if x_.kind == "app" and x_.args[0] == "ndim"][0]
+                    a = [x_ for x_ in atoms_of(lin).values() if x_.kind == "app" and x_.args[0] == "ndim" and nf_equal(lift(x_.args[1]), sym("x"))][0]
                     k = (lin - NF.atom(a)).as_const()
                     k2 = (lin + NF.atom(a)).as_const()
                     # c is  (ndim - m) op 0  or  (m - ndim) op 0
